@@ -1197,6 +1197,7 @@ int main(int argc, char** argv) {
   e.quick_runs = 9000;
   e.thorough_runs = 250000;
   e.quick_cap_s = 200;
+  e.watchdog_s = 60; // runs fork and exec a real child; leave more room on a loaded machine
   e.thorough_cap_s = 1700;
   e.rule =
       "one run = one call (sometimes 2-3 consecutive calls) of run_process(cmd, stdin?, check, timeout), or Subprocess+communicate(payload, deadline)+wait+destruction, or a "
